@@ -43,6 +43,9 @@ class StoreI (S : Type) where
   /-- `Encode(b *[]byte, t enc.FlagType)`: may reorganise the store (the paginated store compacts); returns the
       store and the new buffer -/
   Encode : S → List (BitVec 8) → DDS.Gen.Encoding.FlagType → S × List (BitVec 8)
+  /-- the bins `ForEach` enumerates (index, weight), in the store's order: `x.ForEach(func(i, c) bool {…; return false})`
+      is translated as a loop over this list -/
+  ForEachList : S → List (Int × F64)
   /-- `DecodeAndMergeWith(b *[]byte, binEncodingMode enc.SubFlag) error`: the store, the new buffer, the error -/
   DecodeAndMergeWith : S → List (BitVec 8) → DDS.Gen.Encoding.SubFlag → S × List (BitVec 8) × GoErr
 
